@@ -64,6 +64,8 @@ def least_squares(jacobian, data, weights, damping=None, copy_jacobian=False):
     jacobian = scaler.fit_transform(jacobian)
     if damping is None:
         regr = LinearRegression(fit_intercept=False)
+        if "tol" in regr.get_params():
+            regr.set_params(tol=np.finfo("float64").eps)
     else:
         regr = Ridge(alpha=damping, fit_intercept=False)
     regr.fit(jacobian, np.ravel(data), sample_weight=weights)
